@@ -19,8 +19,10 @@ RULE = ('three streams. paths: every string built from <= 5 components of {a, ab
         'absolutely or relatively, with one `#include <prefix><c1>/../<ck>/x.lua`, ci from {., .., sub, foo, foobar, fo, '
         '"", a}, k <= 3, prefix from {"", /, absolute sandbox paths}; file.from_file under wrappers recording every '
         'open()/isfile()/exists(). require: main.lua with one require("<string>"), string = <= 4 components of '
-        '{a, ab, sub, ., .., "", proj, projx, lib, init, ?, a;b} with/without leading/trailing "/", x 5 load-path '
-        'settings (default, environment variable, relative --lua-path, absolute, ../lib) x 3 working directories x '
+        '{a, ab, sub, ., .., "", proj, projx, lib, init, ?, a;b} with/without leading/trailing "/", plus 39 strings with the '
+        'load-path metacharacters ; and ? combined with absolute / parent paths of canary files that exist outside every '
+        'root (ok;<sandbox>/w/a.lua, ?;<sandbox>/w/a, ok;../a, ...), x 6 load-path '
+        'settings (default, environment variable, relative --lua-path, absolute, ../lib, two placeholders in a pattern) x 3 working directories x '
         'main named absolutely/relatively; tool.main([build ...]) under the same wrappers, canary files outside every '
         'root. graph: a main file and up to 10 library files (a, b, c, sub/a, sub/b, sub/sub/a, lib/a, lib/b, init, a/init), each '
         'with 0-3 require() lines over those names (+ missing, .., "", /a, ./a, ...), 7 load-path settings, 3 working '
@@ -89,7 +91,7 @@ INC_CWDS = ['t', 't/foo', 't/foo/sub', 'home']
 REQ_FILES = [
     'w/proj/a.lua', 'w/proj/ab.lua', 'w/proj/a/init.lua', 'w/proj/sub/a.lua', 'w/proj/sub/init.lua', 'w/proj/sub/ab.lua',
     'w/proj/lib/a.lua', 'w/proj/lib/ab.lua', 'w/proj/proj/a.lua', 'w/proj/init/a.lua', 'w/proj/sub/lib/a.lua',
-    'w/proj/sub/sub/a.lua',
+    'w/proj/sub/sub/a.lua', 'w/proj/a/a.lua', 'w/proj/lib/a/a.lua', 'w/proj/lib/ab/ab.lua',
     'w/lib/a.lua', 'w/lib/ab.lua', 'w/lib/sub/a.lua', 'w/lib/init.lua',
     # canaries: outside every root for the default / relative settings
     'w/init.lua', 'w/a.lua', 'w/ab.lua', 'w/projx/a.lua', 'w/projx/init.lua', 'w/sub/a.lua', 'init.lua', 'a.lua', 'lib/a.lua',
@@ -97,7 +99,7 @@ REQ_FILES = [
 ]
 NESTED = {'w/proj/sub/ab.lua': b'require("a")\nv_nested=1\n'}
 REQ_CWDS = ['w/proj', 'w', '']
-LOAD_PATHS = ['default', 'env', 'rel', 'abs', 'up']
+LOAD_PATHS = ['default', 'env', 'rel', 'abs', 'up', 'multi']
 
 
 def load_path(setting, S):
@@ -112,6 +114,8 @@ def load_path(setting, S):
         return S + '/w/lib/?.lua;?.lua', 'ignored/?.lua'
     if setting == 'up':
         return '../lib/?.lua;?', None
+    if setting == 'multi':                      # several placeholders in one pattern
+        return '?/?.lua;lib/?/?.lua;?', None
     raise ValueError(setting)
 
 
@@ -174,6 +178,17 @@ def require_strings():
     return sorted(set(out))
 
 
+# require strings with load-path metacharacters (';' separates patterns, '?' is the placeholder) combined with
+# absolute / parent paths of canary files that really exist outside every root (<S> = the sandbox directory):
+# with the code as it is they are harmless (the string is substituted per pattern, after the split); a change
+# that lets them act as load-path syntax opens a canary
+META_REQS = ['ok;<S>/w/a.lua', 'ok;<S>/w/a', ';<S>/w/a.lua', ';<S>/w/a', '?;<S>/w/a', 'a?;<S>/w/a.lua', 'ok;<S>/w/init',
+             'ok;<S>/w/projx/a', 'ok;<S>/w/projx/init.lua', 'lib/a;<S>/a', 'a;<S>/lib/a', 'ok;<S>/a.lua', 'ok;<S>/init',
+             'a;<S>/w/a.lua', 'sub/a;<S>/w/sub/a', 'ok;<S>/w/?', '?;<S>/w/?', 'ok;<S>/w/a;b', 'ok;;<S>/w/a.lua',
+             'ok;../a', 'ok;../a.lua', 'ok;../../a', ';../init', '?;../a', 'ok;../projx/a', 'ok;..', 'a;..;b',
+             ';', '?', '??', '?;?', 'a;b', 'a;', ';a', 'a?', '?a', 'a?b;c', 'ok;/init', 'ok;/']
+
+
 def generate(tier, rng):
     quick = tier == 'quick'
     strs = path_strings()
@@ -206,7 +221,9 @@ def generate(tier, rng):
     allreq = [(r, lp, cwd, mode) for r in reqs for lp in LOAD_PATHS for cwd in REQ_CWDS for mode in ('abs', 'rel')]
     sample = allreq if len(allreq) <= n_req else rng.sample(allreq, n_req)
     # short strings are where the escapes are: always run all strings of <= 2 components in every load path
-    must = [(r, lp, 'w/proj', 'abs') for r in reqs if r.count('/') <= 2 and len(r) <= 8 for lp in LOAD_PATHS]
+    must = [(r, lp, 'w/proj', 'abs') for r in META_REQS for lp in LOAD_PATHS]
+    must += [(r, lp, cwd, 'rel') for r in META_REQS[:12] for lp in ('default', 'rel') for cwd in ('w', '')]
+    must += [(r, lp, 'w/proj', 'abs') for r in reqs if r.count('/') <= 2 and len(r) <= 8 for lp in LOAD_PATHS]
     seen = set()
     for r, lp, cwd, mode in must + sample:
         if (r, lp, cwd, mode) in seen:
@@ -249,6 +266,8 @@ def corpus_cases():
     yield {'kind': 'include', 'cart': 'cartssub', 'mode': 'abs', 'cwd': 't', 'inc': '../x.lua'}
     yield {'kind': 'require', 'req': 'sub/ab', 'lp': 'default', 'cwd': 'w', 'mode': 'rel'}
     yield {'kind': 'require', 'req': '../a', 'lp': 'default', 'cwd': 'w/proj', 'mode': 'abs'}
+    yield {'kind': 'require', 'req': 'ok;<S>/w/a.lua', 'lp': 'default', 'cwd': 'w/proj', 'mode': 'abs'}
+    yield {'kind': 'require', 'req': 'ok;<S>/w/a', 'lp': 'default', 'cwd': 'w', 'mode': 'rel'}
     # a package graph with a cycle, a file required twice under the same name from two directories, a nested miss
     yield {'kind': 'graph', 'files': {'a.lua': ['b', 'sub/a'], 'b.lua': ['a'], 'sub/a.lua': ['a', 'b'], 'sub/b.lua': ['missing']},
            'main': ['a', 'b', 'sub/b'], 'lp': 'default', 'cwd': 'w', 'mode': 'rel'}
@@ -302,10 +321,11 @@ def run_impl(case):
         out = S + '/out/o.p8'
         if os.path.exists(out):
             os.remove(out)
-        fsobs.write_file(main_abs, b'm1=1\nrequire("' + case['req'].encode() + b'")\nm2=2\n')
+        req = case['req'].replace('<S>', S)
+        fsobs.write_file(main_abs, b'm1=1\nrequire("' + req.encode() + b'")\nm2=2\n')
         arg, env = load_path(case['lp'], S)
         argv = ['build', out, '--lua', main_arg] + (['--lua-path', arg] if arg is not None else [])
-        obs = {'S': S, 'cwd': cwd, 'main_arg': main_arg, 'out': out, 'lp_arg': arg, 'lp_env': env,
+        obs = {'S': S, 'cwd': cwd, 'main_arg': main_arg, 'out': out, 'lp_arg': arg, 'lp_env': env, 'req': req,
                'lp_eff': arg if arg is not None else (env if env is not None else build.DEFAULT_LUA_PATH)}
         with fsobs.environment(cwd=cwd, home=home, env={'PICO8_LUA_PATH': env}), fsobs.quiet():
             with fsobs.Recorder() as rec:
@@ -339,11 +359,12 @@ def run_impl(case):
         shutil.rmtree(G, ignore_errors=True)
         cwd = os.path.join(S, case['cwd']) if case['cwd'] else S
         main_abs = G + '/main.lua'
-        fsobs.write_file(main_abs, b'm0=0\n' + b''.join(b'require("%s")\n' % r.encode() for r in case['main']))
+        ex = lambda rs: [r.replace('<S>', S) for r in rs]   # noqa: E731
+        fsobs.write_file(main_abs, b'm0=0\n' + b''.join(b'require("%s")\n' % r.encode() for r in ex(case['main'])))
         n = 0
         for rel, reqs in sorted(case['files'].items()):
             n += 1
-            fsobs.write_file(os.path.join(G, rel), b'g%d=%d\n' % (n, n) + b''.join(b'require("%s")\n' % r.encode() for r in reqs))
+            fsobs.write_file(os.path.join(G, rel), b'g%d=%d\n' % (n, n) + b''.join(b'require("%s")\n' % r.encode() for r in ex(reqs)))
         main_arg = main_abs if case['mode'] == 'abs' else os.path.relpath(main_abs, cwd)
         out = S + '/out/g.p8'
         if os.path.exists(out):
@@ -358,9 +379,9 @@ def run_impl(case):
             for f in fs:
                 files.append(os.path.join(root, f))
         obs['files'] = sorted(files)
-        table = {main_abs: case['main']}
+        table = {main_abs: ex(case['main'])}
         for rel, reqs in case['files'].items():
-            table[os.path.join(G, rel)] = reqs
+            table[os.path.join(G, rel)] = ex(reqs)
         table[S + '/w/proj/sub/ab.lua'] = ['a']          # the one canary file that requires something
         obs['table'] = table
         with fsobs.environment(cwd=cwd, home=home, env={'PICO8_LUA_PATH': env}), fsobs.quiet():
@@ -395,10 +416,10 @@ def model_requests(case, obs):
         return ['root %s %s %s' % (h(obs['cwd']), h(obs['home']), h(obs['cart_arg'])),
                 'inc %s %s %s %s %s' % (h(obs['cwd']), h(obs['home']), h(obs['cart_arg']), h(obs['inc']), files)]
     if case['kind'] == 'require':
-        return ['filter ' + h(case['req']),
+        return ['filter ' + h(obs['req']),
                 'eff %s %s' % (h(obs['lp_arg']) if obs['lp_arg'] is not None else '~',
                                h(obs['lp_env']) if obs['lp_env'] is not None else '~'),
-                'cands %s %s %s' % (h(obs['main_arg']), h(obs['lp_eff']), h(case['req']))]
+                'cands %s %s %s' % (h(obs['main_arg']), h(obs['lp_eff']), h(obs['req']))]
     if case['kind'] == 'graph':
         tbl = ';'.join('%s=%s' % (h(k), ','.join(h(r) for r in v) if v else '~') for k, v in sorted(obs['table'].items()))
         return ['walk %s %s %s %s %s' % (h(obs['cwd']), h(obs['main_arg']), h(obs['lp_eff']), fsobs.hxlist(obs['files']), tbl or '~')]
@@ -526,6 +547,8 @@ def signature(case, obs):
             return 'C12/require/empty-string'
         if '..' in case['req'].split('/'):
             return 'C12/require/dotdot-component'
+        if ';' in case['req'] or '?' in case['req']:
+            return 'C12/require/load-path-metacharacter'
         return 'C12/require/other'
     return 'C12/paths'
 
@@ -578,6 +601,32 @@ def run_cases(cases, ctx):
     return res
 
 
+def search_cases(rng):
+    """cases for the search after a broken obligation / correspondence, most telling first: the corpus, the
+    load-path-metacharacter and short require strings in every load-path setting, package graphs, then the rest"""
+    for c in corpus_cases():
+        yield c
+    for r in META_REQS:
+        for lp in LOAD_PATHS:
+            yield {'kind': 'require', 'req': r, 'lp': lp, 'cwd': 'w/proj', 'mode': 'abs'}
+    for r in META_REQS[:12]:
+        for cwd in ('w', ''):
+            yield {'kind': 'require', 'req': r, 'lp': 'default', 'cwd': cwd, 'mode': 'rel'}
+    for _ in range(150):
+        yield gen_graph(rng)
+    rest = [c for c in generate('quick', rng) if c['kind'] != 'paths']
+    incs = [c for c in rest if c['kind'] == 'include']
+    others = [c for c in rest if c['kind'] != 'include']
+    for a, b in itertools.zip_longest(incs, others):
+        if a is not None:
+            yield a
+        if b is not None:
+            yield b
+    for c in generate('thorough', rng):
+        if c['kind'] != 'paths':
+            yield c
+
+
 def search(ctx, budget):
     import random
     import time
@@ -585,10 +634,10 @@ def search(ctx, budget):
     t0 = time.time()
     viol, n = [], 0
     mod = __import__('props.c12', fromlist=['x'])
-    gen = (c for c in itertools.chain(corpus_cases(), generate('thorough', rng)) if c['kind'] != 'paths')
+    gen = search_cases(rng)
     try:
         while time.time() - t0 < budget and not viol:
-            batch = list(itertools.islice(gen, 300))
+            batch = list(itertools.islice(gen, 200))
             if not batch:
                 break
             r = lib.standard_run(mod, batch, {'monitor_exe': ctx.get('monitor_exe'), 'model_exe': None})
